@@ -78,13 +78,71 @@ def expectedDefer : List String := [
   "call close(p.done) onerr=ignored guard=[defer]",
   "defer-end"]
 
-/-- `sequence`: rotation under the mutex, the round, and clearing inSequencing afterwards -/
+/-- `sequence`: rotation under the mutex, the round, and clearing inSequencing afterwards (under the
+    mutex again): `launchRound` rotates atomically, `roundEnd` clears the in-sequencing keys -/
 def expectedSequence : List String := [
+  "call l.poolMu.Lock() onerr=ignored guard=[]",
   "call newPool() onerr=unchecked guard=[]",
   "assign l.currentPool = newPool() guard=[]",
   "assign l.inSequencing = p.byHash guard=[]",
+  "call l.poolMu.Unlock() onerr=ignored guard=[]",
   "call l.sequencePool(p) onerr=unchecked guard=[]",
-  "assign l.inSequencing = nil guard=[]"]
+  "call l.poolMu.Lock() onerr=ignored guard=[]",
+  "assign l.inSequencing = nil guard=[]",
+  "call l.poolMu.Unlock() onerr=ignored guard=[]"]
+
+/-- `RunSequencer`: on every tick either the sunset check stops the loop or exactly one `sequence`
+    runs (there is no other effect in the loop); when the loop ends, for whatever reason, the current
+    pool gets the error and is closed under the mutex -/
+def expectedRunSequencer : List String := [
+  "defer-begin guard=[]",
+  "call l.poolMu.Lock() onerr=ignored guard=[defer]",
+  "defer l.poolMu.Unlock()",
+  "assign l.currentPool.err = err guard=[defer]",
+  "assign l.currentPool.err = err guard=[defer]",
+  "call close(l.currentPool.done) onerr=ignored guard=[defer]",
+  "defer-end",
+  "select [<-ctx.Done()] -> fail",
+  "select [<-t.C] -> fail",
+  "call l.AcceptingSubmissions() onerr=cond guard=[ for select(<-t.C)]",
+  "call l.sequence() onerr=fail guard=[ for select(<-t.C)]"]
+
+/-- `addLeafToPool`: the decision order of the model's `submitted` rule — issuers first (outside the
+    mutex), then under the mutex: closed pool, current pool's table, in-sequencing table, cache, the
+    size test with the two rejections, eviction of ONE low-priority slot whose index the newcomer
+    takes over (`n = nn`, then `break`), or append; low-priority registration; table registration -/
+def expectedAddLeaf : List String := [
+  "call l.uploadIssuer(issuer) onerr=fail guard=[ range(leaf.Issuers)]",
+  "call l.poolMu.Lock() onerr=ignored guard=[]",
+  "defer l.poolMu.Unlock()",
+  "lookup p.err guard=[]",
+  "lookup p.byHash[h] guard=[]",
+  "lookup l.inSequencing[h] guard=[]",
+  "call l.cacheGet(leaf) onerr=fail guard=[]",
+  "assign n = len(p.pendingLeaves) guard=[]",
+  "guard [l.c.PoolSize > 0 && n >= l.c.PoolSize] -> fail",
+  "guard [lowPriority || len(p.lowPriority) == 0] -> fail",
+  "call cancel() onerr=ignored guard=[l.c.PoolSize > 0 && n >= l.c.PoolSize range(p.lowPriority)]",
+  "assign n = nn guard=[l.c.PoolSize > 0 && n >= l.c.PoolSize range(p.lowPriority)]",
+  "assign p.pendingLeaves[n] = leaf guard=[l.c.PoolSize > 0 && n >= l.c.PoolSize range(p.lowPriority)]",
+  "break guard=[l.c.PoolSize > 0 && n >= l.c.PoolSize range(p.lowPriority)]",
+  "assign p.pendingLeaves = append(p.pendingLeaves, leaf) guard=[ !(l.c.PoolSize > 0 && n >= l.c.PoolSize)]",
+  "guard [lowPriority] -> continue",
+  "assign p.lowPriority[n] = func() { close(cancelChan) } guard=[lowPriority]",
+  "assign p.byHash[h] = f guard=[]"]
+
+/-- `uploadIssuer`: the issuer is marked as seen only after it was found equal in, or uploaded to, the
+    object store, and the whole check-or-upload runs under the issuers mutex (`issuersSeen` in the model
+    is extended by the fetch-ok-equal and upload-ok events only) -/
+def expectedUploadIssuer : List String := [
+  "call l.issuersMu.RLock() onerr=ignored guard=[]",
+  "lookup l.issuers[fingerprint] guard=[]",
+  "call l.issuersMu.RUnlock() onerr=ignored guard=[]",
+  "call l.issuersMu.Lock() onerr=ignored guard=[]",
+  "defer l.issuersMu.Unlock()",
+  "call l.c.Backend.Fetch(path) onerr=fail guard=[]",
+  "call l.c.Backend.Upload(path) onerr=unchecked guard=[ <err != nil>]",
+  "assign l.issuers[fingerprint] = true guard=[]"]
 
 /-- applyStagedUploads: every upload runs in the group and the group is awaited before returning -/
 def expectedApply : List String := [
